@@ -127,6 +127,8 @@ def hdrName (n : String) : String :=
 
 def atomRepoOk (a : Atom) : Bool :=
   plainTok a.atype && plainTok a.resname && plainTok a.atomname
+  -- implied by the int()/float() conditions below; stated so that no lemma about number spellings is needed
+  && plainTok a.resid && plainTok a.cgnr && plainTok a.charge && plainTok a.mass
   && (C13.pyInt? a.resid).isSome && (C13.pyInt? a.cgnr).isSome
   && (a.charge.isEmpty || C13.pyFloatOk a.charge) && (a.mass.isEmpty || C13.pyFloatOk a.mass)
 
